@@ -904,6 +904,7 @@ class PeriodicCallback:
             self.callback_time = callback_time
         self.jitter = jitter
         self._running = False
+        self._in_callback = False
         self._timeout: object = None
 
     def start(self) -> None:
@@ -931,8 +932,13 @@ class PeriodicCallback:
         return self._running
 
     async def _run(self) -> None:
-        if not self._running:
+        if not self._running or self._in_callback:
+            # If stop() and start() were called while an invocation was in
+            # progress, that invocation is still running: skip this one
+            # rather than overlap. It will schedule the next run when it
+            # finishes.
             return
+        self._in_callback = True
         try:
             val = self.callback()
             if val is not None and isawaitable(val):
@@ -940,10 +946,17 @@ class PeriodicCallback:
         except Exception:
             app_log.error("Exception in callback %r", self.callback, exc_info=True)
         finally:
+            self._in_callback = False
             self._schedule_next()
 
     def _schedule_next(self) -> None:
         if self._running:
+            if self._timeout is not None:
+                # After stop() and start(), an invocation that began before
+                # the stop() reaches this point while the timeout added by
+                # start() is still pending. Replace it so that only one
+                # schedule stays alive.
+                self.io_loop.remove_timeout(self._timeout)
             self._update_next(self.io_loop.time())
             self._timeout = self.io_loop.add_timeout(self._next_timeout, self._run)
 
